@@ -638,6 +638,18 @@ func (e *Env) evalCall(c *ast.CallExpr) Val {
 		dom, _, _, _ := mapSorts(mt)
 		d := e.st.loadIn(e.cur, dom, extend(m.L[0], []int{0}))
 		return Val{T: setType(mt.Key()), L: []Term{tIte(tIsNil(m.L[0]), zeroOfSort(dom), d)}}
+	case "box":
+		// box(x): x converted to an interface value, as MakeInterface does
+		v := e.eval(arg(0))
+		it := types.NewInterfaceType(nil, nil)
+		tag := tInt(int64(e.x.prog.typeID(v.T)))
+		switch {
+		case isPointerLike(v.T):
+			return Val{T: it, L: []Term{tag, v.L[0]}}
+		case isStringKinded(v.T):
+			return Val{T: it, L: []Term{tag, boxString(v.L[0])}}
+		}
+		e.fail("box(%s): only pointer-like and string-kinded values can be boxed in a contract", v.T)
 	case "sameobj":
 		// sameobj(p, q): p and q point into the same allocation
 		a, b := e.eval(arg(0)), e.eval(arg(1))
@@ -738,8 +750,8 @@ func (e *Env) evalCall(c *ast.CallExpr) Val {
 func (e *Env) evalRec(sf *SpecFn, vars map[string]Val) Val {
 	rt := e.x.parseType(sf.RetType)
 	rl := leavesOf(rt)
-	if len(rl) != 1 {
-		e.fail("recursive spec fn %s must return a single-leaf type", sf.Name)
+	if len(rl) == 0 {
+		e.fail("recursive spec fn %s must return a value", sf.Name)
 	}
 	var argSorts []string
 	var args []Term
@@ -762,18 +774,28 @@ func (e *Env) evalRec(sf *SpecFn, vars map[string]Val) Val {
 		argSorts = append(argSorts, "(Array Ref "+hsort+")")
 		args = append(args, h.name)
 	}
-	uf := "sf_" + sanitize(sf.Name)
-	e.x.d.DeclareFun(uf, argSorts, rl[0].Sort)
-	app := "(" + uf + " " + strings.Join(args, " ") + ")"
-	key := "rec|" + app
-	if !e.st.instd[key] && e.x.recDepth < 2 {
+	out := Val{T: rt}
+	for i, l := range rl {
+		uf := "sf_" + sanitize(sf.Name)
+		if len(rl) > 1 {
+			uf = fmt.Sprintf("sf_%s_%d", sanitize(sf.Name), i)
+		}
+		e.x.d.DeclareFun(uf, argSorts, l.Sort)
+		out.L = append(out.L, "("+uf+" "+strings.Join(args, " ")+")")
+	}
+	key := "rec|" + strings.Join(out.L, "|")
+	if !e.st.instd[key] && e.x.recDepth < 3 {
 		e.st.instd[key] = true
 		e.x.recDepth++
-		body := e.eval(sf.Body.Expr)
+		e.x.inRec++
+		body := e.coerce(e.eval(sf.Body.Expr), rt)
+		e.x.inRec--
 		e.x.recDepth--
-		e.st.assume(tEq(app, body.L[0]))
+		for i := range out.L {
+			e.st.assume(tEq(out.L[i], body.L[i]))
+		}
 	}
-	return Val{T: rt, L: []Term{app}}
+	return out
 }
 
 // ---- types in contract text ------------------------------------------------
